@@ -65,6 +65,22 @@ CHECKS = {
          "Histories with every TIBC transaction kind incl. BSC client updates (valid/invalid synthetic headers) and ETH updates on recorded mainnet headers with the real ethash check are executed 3-7x in one process and in fresh processes with other GOMAXPROCS / TZ / LANG / junk-filled TMPDIR / missing TMPDIR, plus a wall-clock probe (a synthetic ETH header dated 20 s ahead of the real clock in a block of the same virtual time, replayed after the real clock passed it); per block, inputs (time, tx bytes) and outputs (code, codespace, log, gas, data, events, app hash) are digested and compared; differing inputs = harness nondeterminism = inconclusive.",
          "Go randomises map iteration per range statement, so order dependence shows within a few repeats; the thorough tier adds a pass under the Go race detector with concurrent gRPC readers (reports whose racing access is in tibc-go code are violations, the others are listed)."),
 }
+# workload / oracle extensions made after the second round of seeded changes (DESIGN.md 13.1), appended to the level text
+EXTRA = {
+ "C01": " Proofs are also re-arranged structurally (13 ways: elements dropped, swapped, duplicated, unset, Batch, Compressed, NonExist) with genuine and with forged fields; every fourth history uses clients with a confirmation delay.",
+ "C02": " 'Cleaned' is the source chain's clean point (a hop whose clean point ran ahead is still offered the packet); every sixth history is a long pair (sequences beyond 30 with cleans at small numbers) and receives above the clean point are replayed after every receive-clean; user clean requests are also submitted on non-source chains; routing rules change by governance inside the histories with replays of old relay-hop messages.",
+ "C03": " A serial scenario runs the mock application with an empty and with a nil acknowledgement; a third of the histories change routing rules frequently and replay old relay-hop receives; the honest relayer passes on the acknowledgement announced by the chain it proves from.",
+ "C04": " A third of the histories run on meshes with 1-2 missing one-directional clients; non-owners try to send other people's NFTs towards every chain.",
+ "C05": " A third of the histories run on meshes with 1-2 missing one-directional clients.",
+ "C07": " For an eighth of the candidates a second, equally well signed block (another app hash) is offered, also for heights that are already stored.",
+ "C09": " Every accepted send must have a client of its next hop (relay chain if named, else destination); the token histories run on meshes with missing one-directional clients.",
+ "C10": " User clean requests are also submitted on destination / relay / bystander chains naming the real source; every sixth history is a long pair with sequences beyond 30.",
+ "C11": " Governance replaces the relay chain's whitelist (also by the empty list) between the transfers of a script; packets are judged by the rules in force when they reach the relay chain.",
+ "C16": " Relayers are registered ahead of their client before the export and the Relayers query is asked for every registered name.",
+ "C17": " At every position the sealer of each of the last n/2+2 blocks also offers the next block (whole recent-signer window, its oldest entry, first block outside).",
+ "C19": " The two monitors also run over the token workload (repeated partial MT sends of the same token, vouchers going back and forth, malformed receivers, missing clients).",
+ "C20": " In the first execution every third block with transactions is also executed by an application freshly opened on a copy of the committed database (a restarted node) and compared tx result by tx result and by app hash.",
+}
 PENDING = {
 }
 ALL = ["C%02d" % i for i in range(1, 21)]
@@ -90,6 +106,7 @@ man = {
 for pid in ALL:
     if pid in CHECKS:
         lvl, ref, tech, text, note = CHECKS[pid]
+        text += EXTRA.get(pid, "")
         man["checks"].append({
             "property_id": pid,
             "quick_cmd": "./run.sh %s quick" % pid,
